@@ -54,7 +54,23 @@ Fixpoint run_obs (c : cfg) (s : st) (ops : list op) : list (bool * bool) :=
       (redir s1, started s1) :: (if raised then [] else run_obs c s1 r)
   end.
 
-(* [cfg, f0, mode, pre, ops]: mode 0 = free-form history, 1 = with-block (pre = prints before it) *)
+(* the caller catches every exception and goes on (mode 2) *)
+Fixpoint run_all_tr (c : cfg) (s : st) (ops : list op) : st * bool * list (nat * nat) :=
+  match ops with
+  | [] => (s, false, [])
+  | o :: r =>
+      let '(s1, raised) := step c s o in
+      let here := (length (out s1), length (g_printed s1)) in
+      let '(s2, r2, tr) := run_all_tr c s1 r in (s2, raised || r2, here :: tr)
+  end.
+Fixpoint run_all_obs (c : cfg) (s : st) (ops : list op) : list (bool * bool) :=
+  match ops with
+  | [] => []
+  | o :: r => let s1 := fst (step c s o) in (redir s1, started s1) :: run_all_obs c s1 r
+  end.
+
+(* [cfg, f0, mode, pre, ops]: mode 0 = free-form history up to the first exception, 1 = with-block (pre =
+   prints before it), 2 = free-form, every exception caught by the caller, the history goes on *)
 Definition run_case_full (t : tree) : cfg * (st * bool * list (nat * nat)) * list (bool * bool) :=
   let c := tCfg (tNth t 0) in
   let f0 := tLines (tNth t 1) in
@@ -67,6 +83,7 @@ Definition run_case_full (t : tree) : cfg * (st * bool * list (nat * nat)) * lis
     end in
   let ops := map fix_op (tList tOp (tNth t 4)) in
   if tZ (tNth t 2) =? 0 then (c, run_trace c (st0 c f0) ops, run_obs c (st0 c f0) ops)
+  else if tZ (tNth t 2) =? 2 then (c, run_all_tr c (st0 c f0) ops, run_all_obs c (st0 c f0) ops)
   else let '(s, r) := run_block c f0 (tList tLines (tNth t 3)) ops in (c, (s, r, []), []).
 Definition run_case (t : tree) : cfg * (st * bool * list (nat * nat)) := fst (run_case_full t).
 
